@@ -142,9 +142,10 @@ Lemma mon_step_accepts_ck : forall ck c a a' m m' o x pre post,
   (ck_just ck = true -> o_cls x = 1 -> refusal_justified c a m o = true) ->
   (ck_cap ck = true -> forall i inb fd ip, o = OOpenConn i inb fd (Some ip) -> o_cls x = 0 ->
      cap_ok c (open_ips a' false) ip = true) ->
+  (ck_just ck = true -> answer_ok a o (o_cls x) = true) ->
   mon_step_gen ck c a m o x = inl (a', m').
 Proof.
-  intros ck c a a' m m' o x pre post LO Ha Em (sm & I & L) Hpre Hprio Hjust Hcap. unfold mon_step_gen. rewrite Ha, <- Em.
+  intros ck c a a' m m' o x pre post LO Ha Em (sm & I & L) Hpre Hprio Hjust Hcap Hans. unfold mon_step_gen. rewrite Ha, <- Em.
   assert (Hu : forall t, ostat m' t = usage_A a' t) by (intros t; rewrite L; apply (I_num c sm a' I)).
   set (F := fun cand => match usage_mismatch cand m' (universe cand m') with None => Some cand | Some _ => None end).
   assert (Pk : first_some F (pre ++ a' :: post) = Some a').
@@ -173,7 +174,8 @@ Proof.
     destruct (o_cls x =? 0) eqn:C0; [|reflexivity]. apply Z.eqb_eq in C0.
     rewrite (Hcap eq_refl i inb usefd ip eq_refl C0). reflexivity. }
   rewrite Ck.
-  destruct (ck_just ck) eqn:Kj; [|reflexivity]. destruct (o_cls x =? 1) eqn:C1; [|reflexivity]. apply Z.eqb_eq in C1.
+  destruct (ck_just ck) eqn:Kj; [|reflexivity]. rewrite (Hans eq_refl). cbn [negb andb].
+  destruct (o_cls x =? 1) eqn:C1; [|reflexivity]. apply Z.eqb_eq in C1.
   rewrite (Hjust eq_refl C1). reflexivity.
 Qed.
 
